@@ -1,5 +1,6 @@
 """Obligation name (regex) -> replay driver script (run natively on /repo with /venv/bin/python)."""
 DRIVERS = [
+    (r"SnapshotActionContext\._process_action/LOG/snapshot-starts", "c06_independent_snapshots.py"),
     (r"(variable_processor\.py|variable_set_processor\.py):.*/SIG/", "c06_total_collection.py"),
     (r"breadth_first_search/POST/loop#1/body", "c05_breadth_first.py"),
     (r"(TriggerHandler\.trace_call|TriggerHandler\.__process_call_backs|FunctionLocation\.at_location|TriggerHandler\.__actions_for_location)/(SIG|POST/store-invariant|POST/tracing)", "c01_trace_call_escapes.py"),
